@@ -147,6 +147,15 @@ def check(ctx):
                         'DAYS', ok, node=d,
                message='an entry can be purged although DAYS was given and the entry is not '
                        '(known to be) older: undated or recent entries are lost')
+    from .c11 import rmtree_is_fallback, ALLOWED_DELETE, LINK_SAFE
+    for d in listed:
+        prim = d.data['prim']
+        ok = prim in ALLOWED_DELETE and (prim in LINK_SAFE or rmtree_is_fallback(b, d)[0])
+        ctx.ob('R10.4', 'the remover handles every kind of payload (unlink first, rmtree as '
+                        'fallback)', ok, node=d,
+               message='%s is chosen by a test that follows symlinks: a payload that is a link '
+                       'to a directory cannot be removed, its .trashinfo is removed anyway -- '
+                       'the entry is not removed whole' % prim)
     # R10.4 twins
     approve = {}
     for d in listed:
